@@ -98,6 +98,8 @@ var stockFiles = map[string]fileSpec{
 	"/u/garbage.gb":  {Parts: []string{"NC_001422_part.gb"}, Text: "this is not a record\n"},
 	"/u/two.fasta":   {Parts: []string{"NC_001422_part.fasta"}, Text: ">second record\nACGTACGTAAACCCGGGTTT\nACGT\n"},
 	"/u/empty.gb":    {Text: ""},
+	"/u/big.gb":      {Parts: []string{"NC_001422.gb", "NC_001422.gb", "NC_001422.gb"}},
+	"/u/big.fasta":   {Parts: []string{"NC_001422.fasta", "NC_001422.fasta", "NC_001422.fasta", "NC_001422.fasta", "NC_001422.fasta", "NC_001422.fasta", "NC_001422.fasta", "NC_001422.fasta", "NC_001422.fasta", "NC_001422.fasta", "NC_001422.fasta", "NC_001422.fasta", "NC_001422.fasta"}},
 	"/u/guest.fasta": {Text: ">guest\nGATTACAGATTACA\n"},
 	"/u/guest.gb":    {Parts: []string{"NC_001422_part.gb"}},
 	"/u/feat.tbl": {Text: "     misc_feature    10..50\n                     /note=\"annotated by the simulator\"\n" +
@@ -106,7 +108,8 @@ var stockFiles = map[string]fileSpec{
 }
 
 var primaryInputs = []string{"/u/part.gb", "/u/part.gb", "/u/pbat.gb", "/u/pbat.gb", "/u/ecoli.gb", "/u/two.gb", "/u/three.gb", "/u/phix.gb",
-	"/u/part.fasta", "/u/two.fasta", "/u/phix.fasta", "/u/bad2.gb", "/u/badmid.gb", "/u/garbage.gb", "/u/empty.gb"}
+	"/u/part.fasta", "/u/two.fasta", "/u/phix.fasta", "/u/bad2.gb", "/u/badmid.gb", "/u/garbage.gb", "/u/empty.gb",
+	"/u/part.gb", "/u/pbat.gb", "/u/two.gb", "/u/part.fasta", "/u/two.fasta", "/u/ecoli.gb", "/u/big.gb", "/u/big.fasta"}
 
 var locators = []string{"^..$", "1..10", "3", "CDS", "gene", "@^-10..^", "$-20..$", "10..1", "source", "^", "$", "CDS@^..$", "gene/gene=A",
 	"100", "1..100", "@^..^+30", "20..40@^-5..$+5", "misc_feature", "^+5..$-5", "((("}
@@ -117,6 +120,29 @@ var keys = []string{"misc_feature", "gene", "CDS", "promoter"}
 var quals = []string{"note=hello", "gene=x", "note=a b c", "pseudo", "product=some protein"}
 var queries = []string{"@ATGC", "@GATTACA", "@TTTT", "@GAGTTTTATCGCTTCC", "@ACGN", "/u/guest.fasta", "@RRYY"}
 var formats = []string{"fasta", "genbank", "gb", "fasta", "genbank", "bogus"}
+
+// posPools names, per command, the pool each positional argument is drawn
+// from; optPools the pool of each valued option. They let a history change
+// exactly one argument between two invocations.
+var guestPool = []string{"@ACGT", "@GGGGCCCC", "@ACGA", "@TTTT", "/u/guest.fasta", "/u/guest.gb", "/u/guest.fasta"}
+var hostPool = []string{"/u/part.gb", "/u/pbat.gb", "/u/two.gb", "/u/part.fasta"}
+var tablePool = []string{"/u/feat.tbl", "/u/feat.tbl", "/u/feat2.tbl"}
+var posPools = map[string][][]string{
+	"annotate": {tablePool}, "define": {keys, locations}, "delete": {locators}, "infix": {locators, hostPool},
+	"insert": {locators, guestPool}, "pick": {pickLists}, "rotate": {locators}, "search": {queries}, "split": {locators},
+}
+var sepPool = []string{";", "|", "/", "ab", ",", ",;", "a", ";|"}
+var delimPool = []string{",", ";", "|", "  ", ",;"}
+var optPools = map[string]map[string][]string{
+	"query":  {"-d": delimPool, "-t": sepPool, "-n": {"gene", "product", "note", "locus_tag", "translation"}},
+	"search": {"-k": keys, "-q": quals},
+	"select": {"-s": {"both", "forward", "reverse", "sideways"}},
+	"define": {"-q": quals},
+}
+var switchPools = map[string][]string{
+	"delete": {"-e"}, "extract": {"-v"}, "infix": {"-e"}, "insert": {"-e"}, "join": {"-c"}, "pick": {"-f"}, "sort": {"-r"},
+	"query": {"-H", "--source", "-I", "-K", "-L", "--empty"}, "search": {"-e", "--no-complement"}, "select": {"-v"}, "summary": {"-F", "-Q"},
+}
 
 type cmdGen func(r *core.RNG, iv *invocation)
 
@@ -159,7 +185,7 @@ var cmdGens = map[string]cmdGen{
 		sw(r, iv, 1, 2, "-e")
 	},
 	"insert": func(r *core.RNG, iv *invocation) {
-		iv.Pos = []string{pickS(r, locators), pickS(r, []string{"@ACGT", "@GGGGCCCC", "/u/guest.fasta", "/u/guest.gb", "/u/guest.fasta"})}
+		iv.Pos = []string{pickS(r, locators), pickS(r, guestPool)}
 		sw(r, iv, 1, 2, "-e")
 	},
 	"join": func(r *core.RNG, iv *invocation) { sw(r, iv, 1, 2, "-c") },
@@ -174,10 +200,10 @@ var cmdGens = map[string]cmdGen{
 			iv.Opts = append(iv.Opts, o)
 		}
 		if r.Chance(1, 3) {
-			iv.Opts = append(iv.Opts, []string{"-d", pickS(r, []string{",", ";", "|", "  "})})
+			iv.Opts = append(iv.Opts, []string{"-d", pickS(r, delimPool)})
 		}
 		if r.Chance(1, 3) {
-			iv.Opts = append(iv.Opts, []string{"-t", pickS(r, []string{";", "|", "/", "ab"})})
+			iv.Opts = append(iv.Opts, []string{"-t", pickS(r, sepPool)})
 		}
 		sw(r, iv, 1, 3, "-H")
 		sw(r, iv, 1, 3, "--source")
@@ -245,7 +271,39 @@ func genInvocation(r *core.RNG, cmd string) invocation {
 func mutateInvocation(r *core.RNG, a invocation) (invocation, string) {
 	for try := 0; try < 20; try++ {
 		v := a.clone()
-		switch r.Intn(8) {
+		switch r.Intn(12) {
+		case 8: // exactly one positional argument changes
+			if pools := posPools[a.Cmd]; len(pools) > 0 && len(v.Pos) == len(pools) {
+				i := r.Intn(len(pools))
+				nv := pickS(r, pools[i])
+				if nv != v.Pos[i] {
+					v.Pos[i] = nv
+					return v, "one-positional"
+				}
+			}
+		case 9: // exactly one option value changes
+			for i, o := range v.Opts {
+				if pool, ok := optPools[a.Cmd][o[0]]; ok && len(o) > 1 && r.Chance(1, 2) {
+					j := 1 + r.Intn(len(o)-1)
+					nv := pickS(r, pool)
+					if nv != o[j] {
+						v.Opts[i][j] = nv
+						return v, "one-option-value"
+					}
+				}
+			}
+		case 10, 11: // exactly one switch is toggled
+			if sws := switchPools[a.Cmd]; len(sws) > 0 {
+				f := pickS(r, sws)
+				for i, o := range v.Opts {
+					if len(o) == 1 && o[0] == f {
+						v.Opts = append(v.Opts[:i], v.Opts[i+1:]...)
+						return v, "switch-off"
+					}
+				}
+				v.Opts = append(v.Opts, []string{f})
+				return v, "switch-on"
+			}
 		case 0, 1: // regenerate options and positionals of the same command
 			n := genInvocation(r, a.Cmd)
 			v.Opts, v.Pos = n.Opts, n.Pos
@@ -304,8 +362,10 @@ func inputEdit(r *core.RNG, file string) editSpec {
 	if strings.HasSuffix(file, ".tbl") {
 		return editSpec{Op: "replace", Old: "simulator", Text: "user"}
 	}
-	switch r.Intn(4) {
-	case 0: // change one residue near the end
+	switch r.Intn(7) {
+	case 4, 5, 6: // change one residue in the last lines of the file, length unchanged
+		return editSpec{Op: "mutate-tail", At: r.Intn(200)}
+	case 0: // change one residue near the start
 		return editSpec{Op: "replace", At: 0, Old: "acgt", Text: "acga"}
 	case 1:
 		return editSpec{Op: "replace", Old: "ACGT", Text: "ACGA"}
@@ -628,7 +688,13 @@ func c13CliRun(tier string, seed uint64, r *core.RNG) *core.Result {
 	entry, _ := dx.w.GetFile(dx.steps[0].created[0])
 	run1 := &runStep{Argv: first.Argv, Stdin: first.Stdin, Chunks: first.Chunks}
 	var disk *diskStep
-	switch r.Pick([]int{30, 10, 60}) {
+	var edit *editStep
+	switch r.Pick([]int{30, 10, 60, 25}) {
+	case 3: // no damage at all: the entry X made is intact, but the second run has another input
+		edit = &editStep{File: iv.Input, Edit: inputEdit(r, iv.Input)}
+		if r.Chance(1, 3) {
+			edit.Edit = editSpec{Op: "append", Text: "\n"}
+		}
 	case 0: // kill X at a cache-file operation
 		var cand []int
 		for i, o := range tr {
@@ -671,6 +737,9 @@ func c13CliRun(tier string, seed uint64, r *core.RNG) *core.Result {
 	sc.Steps = append(sc.Steps, cliStep{Run: run1})
 	if disk != nil {
 		sc.Steps = append(sc.Steps, cliStep{Disk: disk})
+	}
+	if edit != nil {
+		sc.Steps = append(sc.Steps, cliStep{Edit: edit})
 	}
 	sc.Steps = append(sc.Steps, cliStep{Run: &runStep{Argv: first.Argv, Stdin: first.Stdin, Chunks: first.Chunks}})
 	core.Current, core.CurrentSig = c13Scenario{Kind: "cli", Cli: sc}, "cli"
